@@ -146,7 +146,7 @@ def gen_inputs(chk, P):
     # Constant data, periods dividing BUF_LEN, X ++ X[:k], spliced tails; many lengths k of the last
     # buffer.  A few run through the model as well, the rest ('rt:' = round trip on the implementation
     # only, the model needs ~8 s per 256 KiB buffer)
-    st = G.stale_tail_inputs(rng, B, 2 if quick else 12)
+    st = G.stale_tail_inputs(rng, B, 2 if quick else 5)
     seen = set()
     for k, d in st:
         if k not in seen and len(d) < 2 * B:
